@@ -435,6 +435,11 @@ func run(s *kernel.Sim, prop, cfg string) {
 
 		return
 	}
+	if prop == "C09" {
+		runC09(s, cfg)
+
+		return
+	}
 
 	t := s.T
 	u := buildUniverse(t)
